@@ -2,7 +2,7 @@
 from harness import exchange_check as xc
 
 TRUSTED_EXTRA = xc.TRUSTED_EXTRA
-PLAN = [('loans', 'medium', 80, 2000), ('margin', 'small', 80, 2000), ('zeroreq', 'small', 20, 300)]
+PLAN = [('loans', 'medium', 80, 2000), ('margin', 'small', 80, 2000), ('zeroreq', 'small', 20, 300), ('marginedge', 'small', 24, 300)]
 
 
 def run(chk):
